@@ -33,7 +33,7 @@ Definition then_ (o:out) (f:heap -> world -> value -> out) : out :=
 Lemma to_out_thenG o f : to_out (thenG o f) = then_ (to_out o) (fun h w v => to_out (f h w v)).
 Proof. destruct o as [h w [v|e] d| |]; simpl; auto. destruct (f h w v); reflexivity. Qed.
 
-Theorem bind_runs_in_order n ip h w sp m f argv :
+Theorem bind_runs_in_order n ip h w sp m f argv : late_ok f = true ->
   exec (S n) ip h w (VIO (IOBind sp m f None argv)) =
   match exec n ip h w m with
   | Done h1 w1 (inl x) d1 =>
@@ -43,11 +43,11 @@ Theorem bind_runs_in_order n ip h w sp m f argv :
   | Done h1 w1 (inr e) d1 => Done h1 w1 (inr e) d1
   | o => o end.
 Proof.
-  unfold exec. cbn [bs]. rewrite run_is_runG. unfold doio_body at 1. rewrite runG_bind.
+  intros Hok. unfold exec. cbn [bs]. rewrite run_is_runG. unfold doio_body at 1. rewrite runG_bind.
   cbn [runG]. unfold call. rewrite runG_bind. cbn [runG]. change (proc_body (PDoIO m)) with (doio_body m).
   destruct (bs n ip h w (TComp (doio_body m))) as [h1 w1 [x|e] d1| |]; cbn [of_out thenG runG upddG to_out]; auto.
   2:{ destruct (unmodelled e); cbn [thenG upddG to_out runG Nat.add]; f_equal; lia. }
-  cbn [Nat.add bind]. cbn [runG]. change (proc_body (PApply f sp [x])) with (apply_body f sp [x]).
+  unfold late_apply, call. rewrite Hok. cbn [Nat.add bind]. cbn [runG]. change (proc_body (PApply f sp [x])) with (apply_body f sp [x]).
   destruct (bs n ip h1 w1 (TComp (apply_body f sp [x]))) as [h2 w2 [r|e] d2| |]; cbn [of_out thenG runG upddG to_out then_ updd Nat.add]; auto.
   2:{ cbn [updd]; f_equal; lia. }
   rewrite runG_bind. rewrite (run_is_runG (bs n) (force r)).
@@ -61,15 +61,15 @@ Qed.
 (* bind with a handler: if the bound action fails, the handler gets the exception value - contents and locations
    intact - in the world the failed action left behind, and must itself produce the action that runs next *)
 Theorem bind_handler n ip h w sp m f rej argv h1 w1 e d1 :
-  exec n ip h w m = Done h1 w1 (inr e) d1 -> unmodelled e = false ->
+  exec n ip h w m = Done h1 w1 (inr e) d1 -> unmodelled e = false -> late_ok rej = true ->
   exec (S n) ip h w (VIO (IOBind sp m f (Some rej) argv)) =
   updd (then_ (bs n ip h1 w1 (TComp (apply_body rej sp [VErr (e_spans e) (e_vals e)]))) (fun h2 w2 r =>
         then_ (run (bs n) ip h2 w2 (force r)) (fun h3 w3 r' =>
           if is_io r' then exec n ip h3 w3 r' else Done h3 w3 (inr (mkerr c_type sp)) 0))) d1.
 Proof.
-  unfold exec. intros Hm U. cbn [bs]. rewrite run_is_runG. unfold doio_body at 1. rewrite runG_bind.
+  unfold exec. intros Hm U Hok. cbn [bs]. rewrite run_is_runG. unfold doio_body at 1. rewrite runG_bind.
   cbn [runG]. unfold call. rewrite runG_bind. cbn [runG]. change (proc_body (PDoIO m)) with (doio_body m). rewrite Hm.
-  cbn [of_out thenG runG upddG to_out]. rewrite U. cbn [Nat.add bind runG]. change (proc_body (PApply rej sp [VErr (e_spans e) (e_vals e)])) with (apply_body rej sp [VErr (e_spans e) (e_vals e)]).
+  cbn [of_out thenG runG upddG to_out]. rewrite U. unfold late_apply, call. rewrite Hok. cbn [Nat.add bind runG]. change (proc_body (PApply rej sp [VErr (e_spans e) (e_vals e)])) with (apply_body rej sp [VErr (e_spans e) (e_vals e)]).
   destruct (bs n ip h1 w1 (TComp (apply_body rej sp [VErr (e_spans e) (e_vals e)]))) as [h2 w2 [r|e2] d2| |]; cbn [of_out thenG runG upddG to_out then_ updd Nat.add]; auto; try (cbn [updd]; f_equal; lia; fail).
   rewrite runG_bind. rewrite (run_is_runG (bs n) (force r)).
   destruct (runG (bs n) value ip h2 w2 (force r)) as [h3 w3 [r'|e3] d3| |]; cbn [thenG upddG to_out then_ updd]; auto; try (cbn [updd]; f_equal; lia; fail).
@@ -77,5 +77,18 @@ Proof.
   destruct r'; try discriminate Io. cbn [thenG upddG force runG bind]. change (proc_body (PDoIO (VIO i))) with (doio_body (VIO i)).
   destruct (bs n ip h3 w3 (TComp (doio_body (VIO i)))) as [h4 w4 [y|e4] d4| |]; cbn [of_out upddG to_out updd runG Nat.add]; auto; cbn [updd]; f_equal; lia.
 Qed.
-Print Assumptions bind_handler.
+
+(* a continuation that is not a function (a Boolean, a list, a dictionary ... - strict_functional accepted it when the bind was BUILT) or a literal
+   that names no built-in: the bound action runs first, with all its effects, and only then does the bind fail - in the world the action left *)
+Definition late_code (e:evalr) : Z := match e with EBuiltin _ => c_notfound | _ => c_type end.
+Theorem bind_continuation_checked_late n ip h w sp m f rej argv h1 w1 x d1 : late_ok f = false ->
+  exec n ip h w m = Done h1 w1 (inl x) d1 ->
+  exec (S n) ip h w (VIO (IOBind sp m f rej argv)) = Done h1 w1 (inr (mkerr (late_code f) sp)) d1.
+Proof.
+  intros Hok Hm.
+  unfold exec in *. cbn [bs]. rewrite run_is_runG. unfold doio_body at 1. rewrite runG_bind.
+  cbn [runG]. unfold call. rewrite runG_bind. cbn [runG]. change (proc_body (PDoIO m)) with (doio_body m). rewrite Hm.
+  cbn [of_out thenG runG upddG to_out]. unfold late_apply. rewrite Hok. cbn [Nat.add bind runG raise thenG upddG to_out]. unfold late_code. f_equal. lia.
+Qed.
+Print Assumptions bind_handler. Print Assumptions bind_continuation_checked_late.
 Print Assumptions bind_runs_in_order. Print Assumptions print_spec. Print Assumptions read_line_spec.
